@@ -29,7 +29,9 @@ RULE = ('cases = (filter curve, SED frequency grid[, small per-file SED package]
         'filters 2..60 samples, irregular spacing, zero / non-zero edge values, either storage order, in memory or '
         'through Filter.read; grids 2..80 frequencies, either order, coarser/finer, partially/fully overlapping, bin '
         'edges directed onto filter end points and nodes; per-file packages with one grid for all models or with per-model '
-        'grids (same length and end points, different interior points; other lengths) in file-listing order. A case is non-trivial when at least one bin has a non-zero '
+        'grids (same length and end points, different interior points; other lengths) in file-listing order; a history on the '
+        'one Filter object after its first rebin (normalize / assign response / assign nu and response / another grid, a '
+        'rebin after each step, the package stage last). A case is non-trivial when at least one bin has a non-zero '
         'response; distinct = distinct canonical hash of the generated inputs')
 REQUIRED_BRANCHES = ['filter_increasing_nu', 'filter_decreasing_nu', 'sed_increasing', 'sed_decreasing',
                      'partial_overlap', 'full_overlap', 'edge_on_node', 'from_file', 'nonzero_edges',
@@ -37,7 +39,7 @@ REQUIRED_BRANCHES = ['filter_increasing_nu', 'filter_decreasing_nu', 'sed_increa
                      'package_cube_memmap_off', 'package_unit_mJy', 'package_unit_Jy', 'package_unit_cgs',
                      'grid_unit_Hz', 'grid_unit_GHz', 'grid_unit_THz', 'filter_nu_unit_Hz', 'filter_nu_unit_GHz',
                      'filter_nu_unit_THz', 'file_wav_increasing', 'file_wav_decreasing',
-                     'file_asymmetric']
+                     'file_asymmetric', 'hist_normalize', 'hist_assign_response', 'hist_assign_both', 'hist_grid']
 ASSUMPTIONS = ['IEEE rounding is not modelled: responses compared within 1e-9 of sum|R_i|, fluxes within 1e-9 of '
                'sum|F_i R_i|, variances within 4e-9 relative',
                'filter frequencies strictly monotonic, SED frequencies strictly monotonic, all values finite '
@@ -324,7 +326,33 @@ DIRECTED = [
 ]
 
 
-def gen_case(rng, directed=None, small=False):
+HIST_OPS = ['normalize', 'assign_response', 'assign_response', 'assign_both', 'grid']
+HIST_DIRECTED = [['normalize'], ['assign_response', 'normalize'], ['assign_both'], ['grid', 'assign_response'], [],
+                 ['normalize', 'grid'], ['assign_both', 'normalize', 'assign_response']]
+
+
+def gen_step(rng, op, flt, nodes):
+    """one step of a history on the ONE Filter object after its first rebin; every step is followed by a rebin"""
+    if op == 'assign_response':
+        r = [float('%.3g' % (v * rng.uniform(0.2, 3.) + rng.choice([0., 0.05]) * max(flt['r']))) for v in flt['r']]
+        if not any(v > 0 for v in r):
+            r[len(r) // 2] = 0.5
+        if len(r) >= 4:
+            r[rng.randrange(len(r))] *= 0.25        # not a multiple of the old curve
+        return dict(op=op, r=r)
+    if op == 'assign_both':
+        new = gen_filter(rng, 'nu', nu_unit='Hz', normalize=False)
+        return dict(op=op, x=new['x'], r=new['r'])
+    if op == 'grid':
+        g = gen_grid(rng, rng.choice(GRID_KINDS), nodes, False)
+        unit = rng.choice(['Hz', 'Hz', 'GHz', 'THz'])
+        if unit != 'Hz':
+            g = [float(repr(v / FREQ_FACTOR[unit])) for v in g]
+        return dict(op=op, grid=g, unit=unit)
+    return dict(op=op)
+
+
+def gen_case(rng, directed=None, small=False, hist=None):
     if directed:
         mode, forder, zero, norm, gkind, gorder, with_pkg = directed
         n = rng.choice([2, 3, 5, 9]) if small else None
@@ -343,6 +371,9 @@ def gen_case(rng, directed=None, small=False):
     if grid_unit != 'Hz':
         grid = [float(repr(g / FREQ_FACTOR[grid_unit])) for g in grid]
     case = dict(kind=gkind, filter=flt, grid=grid, grid_unit=grid_unit, package=None)
+    if hist is None:
+        hist = [rng.choice(HIST_OPS) for _ in range(rng.choice([0, 1, 1, 2, 3]))]
+    case['history'] = [gen_step(rng, op, flt, nodes) for op in hist]
     if with_pkg:
         case['package'] = gen_package(rng, nodes, hetero=True if with_pkg == 'hetero' else (False if directed else None),
                                       fmt='cube' if with_pkg == 'cube' else ('files' if directed else None))
@@ -354,9 +385,9 @@ def gen_cases(seed, tier):
     for i in range(n):
         rng = case_rng(seed, PID, i)
         if i < len(DIRECTED):
-            yield gen_case(rng, DIRECTED[i])
+            yield gen_case(rng, DIRECTED[i], hist=HIST_DIRECTED[i % len(HIST_DIRECTED)])
         elif i < 2 * len(DIRECTED):
-            yield gen_case(rng, DIRECTED[i - len(DIRECTED)], small=True)
+            yield gen_case(rng, DIRECTED[i - len(DIRECTED)], small=True, hist=HIST_DIRECTED[(i + 3) % len(HIST_DIRECTED)])
         else:
             yield gen_case(rng)
 
@@ -521,53 +552,110 @@ def grid_branches(nus_held, grid, flt):
     return b
 
 
-def run_case(case):
+def check_rebin(f, cur, grid_in, gunit, drv, label):
+    """Filter.rebin of the object `f` on one grid against the model for the curve `cur` (frequencies in Hz in held
+    order, raw responses, normalised or not) the object holds now.  Returns (failing CaseResult or None, sum R, scale)"""
+    grid = to_hz(grid_in, gunit)           # the float Hz values rebin works with (nu_new.to(u.Hz).value)
+    try:
+        with common.quiet():
+            resp = np.array(f.rebin(np.array(grid_in, dtype=float) * freq_unit(gunit)).response, dtype=float)
+    except Exception as e:
+        return CaseResult(False, violates=True,
+                          detail='%s: rebinning an in-domain filter raised %s: %s' % (label, type(e).__name__, e)), None, 0.
+    t = drv.ask('c06.rebin %s %s' % (filter_line(cur, cur['nus']), rats(grid)))
+    model = t.rats()
+    total = t.rat()
+    scale = float(sum(abs(m) for m in model))
+    bad = None
+    if len(model) != len(resp):
+        bad = 'length: impl %d model %d' % (len(resp), len(model))
+    else:
+        for i, (a, m) in enumerate(zip(resp, model)):
+            if not (abs(float(a) - float(m)) <= 1e-9 * scale) or not np.isfinite(a):
+                bad = ('bin %d (nu=%r): Filter.rebin R_i = %r, model (exact integral over the clipped bin) = %r, '
+                       'sum|R| = %r' % (i, grid[i], float(a), float(m), scale))
+                break
+    if bad is not None:
+        why = property_on_rebin(cur, cur['nus'], grid, resp)
+        return CaseResult(False, violates=True if why else None,
+                          detail=label + ': ' + bad + (' | property check on the real output: ' + why if why else
+                                                       ' | the independent exact integral agrees with the implementation')), total, scale
+    return None, total, scale
+
+
+def apply_filter_step(f, step, cur):
+    """one change of the SAME Filter object through its public attributes; returns the curve it holds afterwards"""
     from astropy import units as u
+    op = step['op']
+    if op == 'normalize':
+        if not any(r > 0 for r in cur['r']):
+            return None                     # 0/0: outside the quantifier
+        f.normalize()
+        return dict(cur, normalize=True)
+    if op == 'assign_response':
+        if len(step['r']) != len(cur['r']):
+            return None
+        f.response = np.array(step['r'], dtype=float)
+        return dict(cur, r=list(step['r']), normalize=False)
+    if op == 'assign_both':
+        f.nu = np.array(step['x'], dtype=float) * u.Hz
+        f.response = np.array(step['r'], dtype=float)
+        return dict(cur, nus=[float(v) for v in step['x']], r=list(step['r']), normalize=False)
+    return cur
+
+
+def run_case(case):
     d = tempfile.mkdtemp(prefix='c06_')
     flt = case['filter']
     grid_in = case['grid']
     gunit = case.get('grid_unit', 'Hz')
-    grid = to_hz(grid_in, gunit)           # the float Hz values rebin works with (nu_new.to(u.Hz).value)
+    grid = to_hz(grid_in, gunit)
     try:
         drv = common.driver()
         try:
             with common.quiet():
                 f, why = build_filter(flt, d)
-                # the model works on the samples the harness wrote (frequencies by c/lambda in written order);
-                # the Filter object must hold exactly those pairs
-                nus_held = written_nu(flt)
-                resp = np.array(f.rebin(np.array(grid_in, dtype=float) * freq_unit(gunit)).response, dtype=float)
         except Exception as e:
             return CaseResult(False, violates=True,
-                              detail='building / rebinning an in-domain filter raised %s: %s' % (type(e).__name__, e))
-        if why:
-            return CaseResult(False, violates=True, branches=sorted(grid_branches(nus_held, grid, flt)), detail=why)
+                              detail='building an in-domain filter raised %s: %s' % (type(e).__name__, e))
+        # the model works on the samples the harness wrote (frequencies by c/lambda in written order);
+        # the Filter object must hold exactly those pairs
+        nus_held = written_nu(flt)
         branches = grid_branches(nus_held, grid, flt)
         branches.add('grid_unit_' + gunit)
-        fl = filter_line(flt, nus_held)
-        t = drv.ask('c06.rebin %s %s' % (fl, rats(grid)))
-        model = t.rats()
-        total = t.rat()
-        scale = float(sum(abs(m) for m in model))
-        bad = None
-        if len(model) != len(resp):
-            bad = 'length: impl %d model %d' % (len(resp), len(model))
-        else:
-            for i, (a, m) in enumerate(zip(resp, model)):
-                if not (abs(float(a) - float(m)) <= 1e-9 * scale) or not np.isfinite(a):
-                    bad = ('bin %d (nu=%r): Filter.rebin R_i = %r, model (exact integral over the clipped bin) = %r, '
-                           'sum|R| = %r' % (i, grid[i], float(a), float(m), scale))
-                    break
+        if why:
+            return CaseResult(False, violates=True, branches=sorted(branches), detail=why)
+        cur = dict(mode=flt['mode'], nus=nus_held, r=list(flt['r']), normalize=flt['normalize'])
+        bad, total, scale = check_rebin(f, cur, grid_in, gunit, drv, 'fresh filter')
         if bad is not None:
-            why = property_on_rebin(flt, nus_held, grid, resp)
-            return CaseResult(False, violates=True if why else None, branches=branches,
-                              detail=bad + (' | property check on the real output: ' + why if why else
-                                            ' | the independent exact integral agrees with the implementation'))
+            bad.branches = sorted(branches)
+            return bad
         nontrivial = scale > 0
-        # ---- observable 2: convolved fluxes of a package
+        # ---- history on the one Filter object: rebin has been called; change the curve and rebin again
+        done = []
+        for step in case.get('history', []):
+            try:
+                with common.quiet():
+                    nxt = apply_filter_step(f, step, cur)
+            except Exception as e:
+                return CaseResult(False, violates=True, branches=sorted(branches),
+                                  detail='after rebin, step %r raised %s: %s' % (step['op'], type(e).__name__, e))
+            if nxt is None:
+                continue
+            cur = nxt
+            if step['op'] == 'grid':
+                grid_in, gunit = step['grid'], step['unit']
+            done.append(step['op'])
+            branches.add('hist_' + step['op'])
+            bad, total2, _ = check_rebin(f, cur, grid_in, gunit, drv,
+                                         'same Filter object after rebin and then %s' % ' -> '.join(done))
+            if bad is not None:
+                bad.branches = sorted(branches)
+                return bad
+        # ---- observable 2: convolved fluxes of a package, with the filter as it is now
         pkg = case.get('package')
         if pkg:
-            res = run_package(case, f, flt, nus_held, d, drv)
+            res = run_package(case, f, cur, cur['nus'], d, drv)
             if res is not None:
                 res.branches = sorted(set(res.branches) | branches)
                 return res
@@ -584,7 +672,7 @@ def run_case(case):
                 branches.add('package_same_ends_other_interior')
             branches.add('apertures_%d' % (len(pkg['apertures']) if pkg['apertures'] else 1))
         sample = dict(kind=case['kind'], filter_mode=flt['mode'], n_filter=len(flt['x']), n_grid=len(grid),
-                      normalize=flt['normalize'], sum_R=float(total), package=bool(pkg))
+                      normalize=flt['normalize'], sum_R=float(total), package=bool(pkg), history=done)
         return CaseResult(True, branches=sorted(branches), key=common.canon_hash(case), nontrivial=nontrivial,
                           sample=sample)
     finally:
@@ -706,6 +794,28 @@ def search(seed, tier, disagreeing_cases):
                 found.append((dict(case, package=None), 'in-domain rebin raised %s: %s' % (type(e).__name__, e)))
                 continue
             why = why0 or property_on_rebin(flt, nus_held, grid_hz, resp)
+            if not why:
+                # history on the same object, against the exact integral for the curve it holds now
+                cur = dict(mode=flt['mode'], nus=nus_held, r=list(flt['r']), normalize=flt['normalize'])
+                g_in, g_unit = case['grid'], case.get('grid_unit', 'Hz')
+                done = []
+                try:
+                    for step in case.get('history', []):
+                        with common.quiet():
+                            nxt = apply_filter_step(f, step, cur)
+                            if nxt is None:
+                                continue
+                            cur = nxt
+                            if step['op'] == 'grid':
+                                g_in, g_unit = step['grid'], step['unit']
+                            done.append(step['op'])
+                            resp = np.array(f.rebin(np.array(g_in, dtype=float) * freq_unit(g_unit)).response, dtype=float)
+                        why = property_on_rebin(cur, cur['nus'], to_hz(g_in, g_unit), resp)
+                        if why:
+                            why = 'same Filter object after rebin and then %s: %s' % (' -> '.join(done), why)
+                            break
+                except Exception as e:
+                    why = 'history step raised %s: %s' % (type(e).__name__, e)
             if why:
                 found.append((dict(case, package=None), why))
         finally:
